@@ -317,9 +317,9 @@ Section Sim.
     match o with OList t => OList (to_list LO t) | OMap m => OMap m | OSet s => OSet s end.
   Definition wfo (o : obj T) : Prop := match o with OList t => wf_t t | _ => True end.
 
-  Definition simgoal (alias : bool) (s : list (obj T)) (o : op) : Prop :=
-    step ref_lops alias (map fobj s) o = (map fobj (fst (step LO alias s o)), snd (step LO alias s o))
-    /\ Forall wfo (fst (step LO alias s o)).
+  Definition simgoal (s : list (obj T)) (o : op) : Prop :=
+    step ref_lops (map fobj s) o = (map fobj (fst (step LO s o)), snd (step LO s o))
+    /\ Forall wfo (fst (step LO s o)).
 
   Lemma sim_same : forall (s : list (obj T)) (out : outcome), Forall wfo s ->
     (map fobj s, out) = (map fobj (fst (s, out)), snd (s, out)) /\ Forall wfo (fst (s, out)).
@@ -374,16 +374,16 @@ Section Sim.
     resolve_index z (Z.of_nat (length l)) = Some i -> (Z.to_nat i < length l)%nat.
   Proof. intros z l i H. apply resolve_index_some in H; lia. Qed.
 
-  Lemma sim_simple : forall alias (s : list (obj T)) o, Forall wfo s ->
+  Lemma sim_simple : forall (s : list (obj T)) o, Forall wfo s ->
     match o with
     | NewList _ | NewMap _ | NewSet _ | Get _ _ | Slice _ _ _ | Contains _ _ | Len _ | Copy _ | Count _ _ | Index _ _
     | Reversed _ | Keys _ | Concat _ _ | MapCb _ _ | FilterCb _ _ | MGetD _ _ _ | MPop _ _ _ | MSetDefault _ _ _
     | MUpdate _ _ | MValues _ | MItems _ | SAdd _ _ | SRemove _ _ | SUnion _ _ | SInter _ _ | Sorted _
-    | Enumerate _ => simgoal alias s o
+    | Enumerate _ => simgoal s o
     | _ => True
     end.
   Proof.
-    intros alias s o F. destruct o; try exact I; open_step.
+    intros s o F. destruct o; try exact I; open_step.
     - apply sim_new_list; exact F.
     - apply (sim_alloc _ (OMap _)); [exact F | exact I].
     - destruct (set_of_list l []); [apply (sim_alloc _ (OSet _)); [exact F | exact I] | apply sim_same; exact F].
@@ -415,14 +415,14 @@ Section Sim.
 
   Ltac wf_at F En Wt := pose proof (Forall_nth_error _ wfo _ _ _ F En) as Wt; simpl in Wt.
 
-  Lemma sim_mut : forall alias (s : list (obj T)) o, Forall wfo s ->
+  Lemma sim_mut : forall (s : list (obj T)) o, Forall wfo s ->
     match o with
     | SetItem _ _ _ | AddAssign _ _ _ | Del _ _ | Append _ _ | Insert _ _ _ | Pop _ _ | Remove _ _ | Extend _ _
-    | Reverse _ | Sort _ | Clear _ | EachAppend _ _ => simgoal alias s o
+    | Reverse _ | Sort _ | Clear _ | EachAppend _ _ => simgoal s o
     | _ => True
     end.
   Proof.
-    intros alias s o F. destruct o; try exact I; open_step.
+    intros s o F. destruct o; try exact I; open_step.
     - (* SetItem *)
       destruct (nth_error s r) as [[t|m|st]|] eqn:En; cbn [option_map fobj to_list of_list l_set l_append l_delete l_insert l_reverse l_assign ref_lops]; [|easy_sim F|easy_sim F|easy_sim F].
       destruct k; try (apply sim_same; exact F).
@@ -497,22 +497,22 @@ Section Sim.
       rewrite <- E. apply (sim_upd s r2 (OList (l_append LO t2 (to_list LO t)))); auto.
   Qed.
 
-  Theorem step_sim : forall alias (s : list (obj T)) o, Forall wfo s -> simgoal alias s o.
+  Theorem step_sim : forall (s : list (obj T)) o, Forall wfo s -> simgoal s o.
   Proof.
-    intros alias s o F.
-    pose proof (sim_simple alias s o F) as A. pose proof (sim_mut alias s o F) as B.
+    intros s o F.
+    pose proof (sim_simple s o F) as A. pose proof (sim_mut s o F) as B.
     destruct o; try exact A; exact B.
   Qed.
 
-  Theorem run_sim : forall alias ops (s : list (obj T)), Forall wfo s ->
-    run ref_lops alias (map fobj s) ops = (map fobj (fst (run LO alias s ops)), snd (run LO alias s ops))
-    /\ Forall wfo (fst (run LO alias s ops)).
+  Theorem run_sim : forall ops (s : list (obj T)), Forall wfo s ->
+    run ref_lops (map fobj s) ops = (map fobj (fst (run LO s ops)), snd (run LO s ops))
+    /\ Forall wfo (fst (run LO s ops)).
   Proof.
-    intros alias. induction ops as [|o ops IH]; intros s F; simpl; [auto|].
-    destruct (step_sim alias s o F) as [E W]. unfold simgoal in E.
-    destruct (step LO alias s o) as [s1 out] eqn:S1. simpl in E, W. rewrite E.
+    induction ops as [|o ops IH]; intros s F; simpl; [auto|].
+    destruct (step_sim s o F) as [E W]. unfold simgoal in E.
+    destruct (step LO s o) as [s1 out] eqn:S1. simpl in E, W. rewrite E.
     destruct (IH s1 W) as [E2 W2].
-    destruct (run LO alias s1 ops) as [s2 outs] eqn:R2. simpl in E2, W2. rewrite E2. simpl. auto.
+    destruct (run LO s1 ops) as [s2 outs] eqn:R2. simpl in E2, W2. rewrite E2. simpl. auto.
   Qed.
 End Sim.
 
@@ -530,49 +530,26 @@ Proof.
   - intros t l' W H. apply g_assign_abs; auto. rewrite H. apply g_abs_length. exact W.
 Qed.
 
-Lemma map_cb_alias : forall cb l, (cb = CbVal \/ cb = CbIdxCopy) -> map_cb_result true cb l = map_cb_result false cb l.
-Proof. intros cb l [E|E]; subst; reflexivity. Qed.
-
-Lemma step_alias : forall (s : list (obj (list value))) o, escapes_index o = false ->
-  step ref_lops true s o = step ref_lops false s o.
-Proof.
-  intros s o H. destruct o; try reflexivity.
-  destruct cb; simpl in H; try discriminate; unfold step;
-    destruct (nth_error s r) as [[t|m|st]|]; try reflexivity; f_equal.
-Qed.
-
-Lemma run_alias : forall ops (s : list (obj (list value))), no_escape ops = true ->
-  run ref_lops true s ops = run ref_lops false s ops.
-Proof.
-  induction ops as [|o ops IH]; intros s H; simpl; [reflexivity|].
-  unfold no_escape in H. simpl in H. apply andb_true_iff in H. destruct H as [H1 H2].
-  apply negb_true_iff in H1. rewrite (step_alias s o H1).
-  destruct (step ref_lops false s o) as [s1 out]. rewrite (IH s1 H2). reflexivity.
-Qed.
-
 Definition wf_store (s : list (obj gslice)) : Prop := Forall wf_obj s.
 
 Lemma wfo_wf_obj : forall o, wfo g_wf o <-> wf_obj o.
 Proof. intros [t|m|st]; simpl; tauto. Qed.
 
-Theorem refines : forall ops (s : list (obj gslice)), wf_store s -> no_escape ops = true ->
+Theorem refines : forall ops (s : list (obj gslice)), wf_store s ->
   arun (abs_store s) ops = (abs_store (fst (crun s ops)), snd (crun s ops)) /\ wf_store (fst (crun s ops)).
 Proof.
-  intros ops s W H. unfold arun, crun, abs_store, wf_store in *.
+  intros ops s W. unfold arun, crun, abs_store, wf_store in *.
   assert (W' : Forall (wfo g_wf) s) by (eapply Forall_impl; [|exact W]; intros; apply wfo_wf_obj; auto).
-  destruct (run_sim go_lops g_wf go_laws true ops s W') as [E F].
-  rewrite <- (run_alias ops _ H).
+  destruct (run_sim go_lops g_wf go_laws ops s W') as [E F].
   split; [exact E|]. eapply Forall_impl; [|exact F]. intros; apply wfo_wf_obj; auto.
 Qed.
 
-(* one step, without the guard: the only operation on which the two differ is the escaping list.map *)
-Theorem step_refines : forall o (s : list (obj gslice)), wf_store s -> escapes_index o = false ->
+Theorem step_refines : forall o (s : list (obj gslice)), wf_store s ->
   astep (abs_store s) o = (abs_store (fst (cstep s o)), snd (cstep s o)) /\ wf_store (fst (cstep s o)).
 Proof.
-  intros o s W H. unfold astep, cstep, abs_store, wf_store in *.
+  intros o s W. unfold astep, cstep, abs_store, wf_store in *.
   assert (W' : Forall (wfo g_wf) s) by (eapply Forall_impl; [|exact W]; intros; apply wfo_wf_obj; auto).
-  destruct (step_sim go_lops g_wf go_laws true s o W') as [E F]. unfold simgoal in E.
-  rewrite <- (step_alias _ o H).
+  destruct (step_sim go_lops g_wf go_laws s o W') as [E F]. unfold simgoal in E.
   split; [exact E|]. eapply Forall_impl; [|exact F]. intros; apply wfo_wf_obj; auto.
 Qed.
 
@@ -950,77 +927,157 @@ Proof.
 Qed.
 
 
-Definition bwf (st : bstate) : Prop :=
-  Forall (fun o => (b_arr o < length (b_heap st))%nat /\
-                   (b_off o + b_len o <= length (nth (b_arr o) (b_heap st) []))%nat) (b_objs st).
+(* ---------------------------------------------------------------- every byte_slice owns its array *)
 
-Lemma b_view_length : forall st o, (b_off o + b_len o <= length (nth (b_arr o) (b_heap st) []))%nat ->
-  length (b_view st o) = b_len o.
-Proof. intros st o H. unfold b_view. rewrite firstn_length, skipn_length. lia. Qed.
+(* every object covers the whole of an array of its own *)
+Definition bown (st : bstate) : Prop :=
+  length (b_heap st) = length (b_objs st) /\
+  forall r o, nth_error (b_objs st) r = Some o ->
+    b_arr o = r /\ b_off o = O /\ b_len o = length (nth r (b_heap st) []).
 
-Lemma b_view_heap_ext : forall heap objs extra objs' o, (b_arr o < length heap)%nat ->
-  b_view (BS (heap ++ extra) objs') o = b_view (BS heap objs) o.
-Proof. intros. unfold b_view. cbn [b_heap]. rewrite app_nth1 by assumption. reflexivity. Qed.
-
-Lemma b_alloc_sim : forall st l, bwf st ->
-  babs (fst (b_alloc st l)) = babs st ++ [l] /\ snd (b_alloc st l) = RRef (length (babs st)) /\ bwf (fst (b_alloc st l)).
+Lemma bown_view : forall st r o, bown st -> nth_error (b_objs st) r = Some o -> b_view st o = nth r (b_heap st) [].
 Proof.
-  intros [heap objs] l W. unfold b_alloc, babs, bwf in *. cbn [fst snd b_heap b_objs] in *.
-  rewrite map_app, map_length. split; [|split; [reflexivity|]].
-  - f_equal.
-    + apply map_ext_in. intros o I. rewrite Forall_forall in W. destruct (W o I) as [A _].
-      apply (b_view_heap_ext heap objs [l] (objs ++ [BO (length heap) 0 (length l)]) o A).
-    + simpl. unfold b_view. cbn [b_arr b_off b_len b_heap]. rewrite app_nth2 by lia. rewrite Nat.sub_diag. simpl.
-      rewrite firstn_all. reflexivity.
-  - apply Forall_app. split.
-    + eapply Forall_impl; [|exact W]. intros o [A B]. rewrite app_length. split; [lia|]. rewrite app_nth1 by assumption. exact B.
-    + constructor; [|constructor]. cbn [b_arr b_off b_len]. rewrite app_length. simpl. split; [lia|].
-      rewrite app_nth2 by lia. rewrite Nat.sub_diag. simpl. lia.
+  intros st r o [L H] En. destruct (H r o En) as (A & B & C). unfold b_view. rewrite A, B, C. simpl. apply firstn_all.
 Qed.
 
-Lemma bstep_sim : forall st o, bwf st -> is_bset o = false ->
-  rbstep (babs st) o = (babs (fst (bstep st o)), snd (bstep st o)) /\ bwf (fst (bstep st o)).
+Lemma babs_bown : forall st, bown st -> babs st = b_heap st.
 Proof.
-  intros st o W H. destruct o; try discriminate; unfold rbstep, bstep.
-  - destruct (b_alloc_sim st l W) as (A & B & C). rewrite A, B. auto.
-  - unfold babs at 1. rewrite nth_error_map'. destruct (nth_error (b_objs st) r) as [bo|] eqn:En; simpl; [|auto].
-    assert (Wb := Forall_nth_error _ _ _ _ _ W En). destruct Wb as [Wa Wl].
-    rewrite (b_view_length st bo Wl). destruct k; auto.
-    destruct (resolve_index z (Z.of_nat (b_len bo))); auto.
-  - unfold babs at 1. rewrite nth_error_map'. destruct (nth_error (b_objs st) r) as [bo|] eqn:En; simpl; [|auto].
-    assert (Wb := Forall_nth_error _ _ _ _ _ W En). destruct Wb as [Wa Wl].
-    rewrite (b_view_length st bo Wl).
-    destruct (resolve_slice lo hi (Z.of_nat (b_len bo))) as [[a b]|e] eqn:Rs; [|auto].
-    apply resolve_slice_ok in Rs; [|lia]. cbn [fst snd].
-    unfold babs. cbn [b_objs b_heap]. rewrite map_app, map_length. split.
-    + assert (E1 : forall st' : bstate, b_heap st' = b_heap st -> map (b_view st') (b_objs st) = map (b_view st) (b_objs st)).
-      { intros st' Hh. apply map_ext. intro o. unfold b_view. rewrite Hh. reflexivity. }
-      f_equal. f_equal. simpl. f_equal.
-      unfold b_view. cbn [b_arr b_off b_len b_heap].
-      set (X := nth (b_arr bo) (b_heap st) []).
-      rewrite skipn_firstn_comm. rewrite firstn_firstn. rewrite skipn_skipn'.
-      replace (Nat.min (Z.to_nat b - Z.to_nat a) (b_len bo - Z.to_nat a)) with (Z.to_nat b - Z.to_nat a)%nat by lia.
-      first [reflexivity | f_equal; f_equal; lia].
-    + unfold bwf. cbn [b_objs b_heap]. apply Forall_app. split; [exact W|].
-      constructor; [|constructor]. cbn [b_arr b_off b_len]. split; [exact Wa | lia].
-  - unfold babs at 1. rewrite nth_error_map'. destruct (nth_error (b_objs st) r) as [bo|] eqn:En; cbn [option_map]; [|auto].
-    destruct (b_alloc_sim st (b_view st bo) W) as (A & B & C). rewrite A, B. unfold babs. rewrite map_length. auto.
-  - unfold babs at 1. rewrite nth_error_map'. destruct (nth_error (b_objs st) r) as [bo|] eqn:En; simpl; [|auto].
-    assert (Wb := Forall_nth_error _ _ _ _ _ W En). destruct Wb as [Wa Wl].
-    rewrite (b_view_length st bo Wl). auto.
-  - unfold babs at 1 2. rewrite !nth_error_map'.
-    destruct (nth_error (b_objs st) r) as [bo|] eqn:En; destruct (nth_error (b_objs st) r2) as [bo2|] eqn:En2; cbn [option_map]; auto.
-    destruct (b_alloc_sim st (b_view st bo ++ b_view st bo2) W) as (A & B & C). rewrite A, B. unfold babs. rewrite map_length. auto.
+  intros st W. apply nth_ext with (d := []) (d' := []).
+  - unfold babs. rewrite map_length. destruct W as [L _]. lia.
+  - intros n Hn. unfold babs in *. rewrite map_length in Hn.
+    destruct (nth_error (b_objs st) n) as [o|] eqn:En; [|apply nth_error_None in En; lia].
+    rewrite (nth_indep _ [] (b_view st (BO 0 0 0))) by (rewrite map_length; lia).
+    rewrite map_nth. erewrite nth_error_nth by exact En. apply (bown_view st n o W En).
 Qed.
 
-Theorem brun_refines : forall ops st, bwf st -> forallb (fun o => negb (is_bset o)) ops = true ->
-  rbrun (babs st) ops = (babs (fst (brun st ops)), snd (brun st ops)) /\ bwf (fst (brun st ops)).
+Lemma bown_alloc : forall st l, bown st -> bown (fst (b_alloc st l)).
 Proof.
-  induction ops as [|o ops IH]; intros st W H; simpl; [auto|].
-  simpl in H. apply andb_true_iff in H. destruct H as [H1 H2]. apply negb_true_iff in H1.
-  destruct (bstep_sim st o W H1) as [E W1]. rewrite E.
+  intros [heap objs] l [L H]. unfold b_alloc, bown. cbn [fst b_heap b_objs] in *. split.
+  - rewrite !app_length. simpl. lia.
+  - intros r o En. destruct (Nat.lt_ge_cases r (length objs)) as [Hr|Hr].
+    + rewrite nth_error_app1 in En by assumption. destruct (H r o En) as (A & B & C).
+      rewrite app_nth1 by lia. auto.
+    + rewrite nth_error_app2 in En by assumption.
+      destruct (r - length objs)%nat as [|k] eqn:Ek; simpl in En; [|destruct k; discriminate].
+      inversion En; subst. cbn [b_arr b_off b_len]. assert (r = length heap) by lia. subst r.
+      rewrite app_nth2 by lia. rewrite Nat.sub_diag. simpl. auto.
+Qed.
+
+Lemma nth_set_nth_obj : forall (A : Type) (s : list A) r x d, (r < length s)%nat -> nth r (set_nth_obj s r x) d = x.
+Proof. induction s as [|y s IH]; intros [|r] x d H; simpl in *; try lia; auto. apply IH. lia. Qed.
+
+Lemma nth_set_nth_obj_other : forall (A : Type) (s : list A) r r' x d, r <> r' -> nth r' (set_nth_obj s r x) d = nth r' s d.
+Proof. induction s as [|y s IH]; intros [|r] [|r'] x d H; simpl; auto; try congruence. Qed.
+
+Lemma set_nth_obj_length : forall (A : Type) (s : list A) r x, length (set_nth_obj s r x) = length s.
+Proof. induction s as [|y s IH]; intros [|r] x; simpl; auto. Qed.
+
+Lemma zwrite_length : forall arr i x, (i < length arr)%nat -> length (zwrite arr i x) = length arr.
+Proof. intros. unfold zwrite. rewrite app_length, firstn_length. cbn [length]. rewrite skipn_length. lia. Qed.
+
+Lemma bstep_own_sim : forall st o, bown st ->
+  rbstep (babs st) o = (babs (fst (bstep st o)), snd (bstep st o)) /\ bown (fst (bstep st o)).
+Proof.
+  intros st o W. pose proof (babs_bown st W) as Eb. destruct o; unfold rbstep, bstep.
+  - pose proof (bown_alloc st l W) as W'. rewrite (babs_bown _ W'). rewrite Eb.
+    split; [|exact W']. unfold b_alloc. cbn [fst snd b_heap b_objs]. destruct W as [L _]. rewrite L. reflexivity.
+  - rewrite Eb. destruct (nth_error (b_objs st) r) as [bo|] eqn:En.
+    + destruct W as [L Hw]. destruct (Hw r bo En) as (A & B & C).
+      assert (Hr : (r < length (b_heap st))%nat) by (rewrite L; apply nth_error_Some; congruence).
+      destruct (nth_error (b_heap st) r) as [arr|] eqn:Eh; [|apply nth_error_None in Eh; lia].
+      assert (Ea : nth r (b_heap st) [] = arr) by (apply nth_error_nth; exact Eh).
+      rewrite C, Ea. assert (Ev : b_view st bo = arr) by (rewrite <- Ea; apply (bown_view st r bo (conj L Hw) En)).
+      destruct k; try (cbn [fst snd]; rewrite Eb; split; [reflexivity | split; assumption]).
+      destruct (resolve_index z (Z.of_nat (length arr))); cbn [fst snd]; rewrite Eb, ?Ev;
+        (split; [reflexivity | split; assumption]).
+    + destruct (nth_error (b_heap st) r) as [arr|] eqn:Eh.
+      * exfalso. destruct W as [L _]. apply nth_error_None in En. assert (r < length (b_heap st))%nat by (apply nth_error_Some; congruence). lia.
+      * cbn [fst snd]. rewrite Eb. auto.
+  - (* BSlice: a fresh array holding the selected bytes *)
+    rewrite Eb. destruct (nth_error (b_objs st) r) as [bo|] eqn:En.
+    + destruct W as [L Hw]. destruct (Hw r bo En) as (A & B & C).
+      assert (Hr : (r < length (b_heap st))%nat) by (rewrite L; apply nth_error_Some; congruence).
+      destruct (nth_error (b_heap st) r) as [arr|] eqn:Eh; [|apply nth_error_None in Eh; lia].
+      assert (Ea : nth r (b_heap st) [] = arr) by (apply nth_error_nth; exact Eh).
+      assert (Ev : b_view st bo = arr) by (rewrite <- Ea; apply (bown_view st r bo (conj L Hw) En)).
+      rewrite C, Ea, Ev.
+      destruct (resolve_slice lo hi (Z.of_nat (length arr))) as [[a b]|e];
+        [|cbn [fst snd]; rewrite Eb; split; [reflexivity | split; assumption]].
+      set (piece := firstn (Z.to_nat b - Z.to_nat a) (skipn (Z.to_nat a) arr)).
+      pose proof (bown_alloc st piece (conj L Hw)) as W'. rewrite (babs_bown _ W').
+      split; [|exact W']. unfold b_alloc. cbn [fst snd b_heap b_objs]. rewrite L. reflexivity.
+    + destruct (nth_error (b_heap st) r) as [arr|] eqn:Eh.
+      * exfalso. destruct W as [L _]. apply nth_error_None in En. assert (r < length (b_heap st))%nat by (apply nth_error_Some; congruence). lia.
+      * cbn [fst snd]. rewrite Eb. auto.
+  - rewrite Eb. destruct (nth_error (b_objs st) r) as [bo|] eqn:En.
+    + destruct W as [L Hw]. destruct (Hw r bo En) as (A & B & C).
+      assert (Hr : (r < length (b_heap st))%nat) by (rewrite L; apply nth_error_Some; congruence).
+      destruct (nth_error (b_heap st) r) as [arr|] eqn:Eh; [|apply nth_error_None in Eh; lia].
+      assert (Ea : nth r (b_heap st) [] = arr) by (apply nth_error_nth; exact Eh).
+      rewrite C, Ea. rewrite A, B. simpl Nat.add. rewrite Ea.
+      destruct k; try (cbn [fst snd]; rewrite Eb; split; [reflexivity | split; assumption]).
+      destruct (resolve_index z (Z.of_nat (length arr))) as [i|] eqn:Ri;
+        [|cbn [fst snd]; rewrite Eb; split; [reflexivity | split; assumption]].
+      destruct (as_string v) as [[|x [|y t]]|];
+        try (cbn [fst snd]; rewrite Eb; split; [reflexivity | split; assumption]).
+      cbn [fst snd].
+      assert (Hi : (Z.to_nat i < length arr)%nat) by (apply resolve_index_some in Ri; lia).
+      assert (W' : bown (BS (set_nth_obj (b_heap st) r (zwrite arr (Z.to_nat i) x)) (b_objs st))).
+      { split; cbn [b_heap b_objs].
+        - rewrite set_nth_obj_length. exact L.
+        - intros r' o' En'. destruct (Hw r' o' En') as (A' & B' & C'). repeat split; auto.
+          destruct (Nat.eq_dec r r') as [->|Ne].
+          + rewrite nth_set_nth_obj by (rewrite L; apply nth_error_Some; congruence).
+            rewrite zwrite_length by assumption. rewrite C'. rewrite Ea. reflexivity.
+          + rewrite nth_set_nth_obj_other by assumption. exact C'. }
+      rewrite (babs_bown _ W'). cbn [b_heap]. split; [reflexivity | exact W'].
+    + destruct (nth_error (b_heap st) r) as [arr|] eqn:Eh.
+      * exfalso. destruct W as [L _]. apply nth_error_None in En. assert (r < length (b_heap st))%nat by (apply nth_error_Some; congruence). lia.
+      * cbn [fst snd]. rewrite Eb. auto.
+  - rewrite Eb. destruct (nth_error (b_objs st) r) as [bo|] eqn:En.
+    + destruct W as [L Hw].
+      assert (Hr : (r < length (b_heap st))%nat) by (rewrite L; apply nth_error_Some; congruence).
+      destruct (nth_error (b_heap st) r) as [arr|] eqn:Eh; [|apply nth_error_None in Eh; lia].
+      assert (Ea : nth r (b_heap st) [] = arr) by (apply nth_error_nth; exact Eh).
+      assert (Ev : b_view st bo = arr) by (rewrite <- Ea; apply (bown_view st r bo (conj L Hw) En)).
+      rewrite Ev. pose proof (bown_alloc st arr (conj L Hw)) as W'. rewrite (babs_bown _ W').
+      split; [|exact W']. unfold b_alloc. cbn [fst snd b_heap b_objs]. rewrite L. reflexivity.
+    + destruct (nth_error (b_heap st) r) as [arr|] eqn:Eh.
+      * exfalso. destruct W as [L _]. apply nth_error_None in En. assert (r < length (b_heap st))%nat by (apply nth_error_Some; congruence). lia.
+      * cbn [fst snd]. rewrite Eb. auto.
+  - rewrite Eb. destruct (nth_error (b_objs st) r) as [bo|] eqn:En.
+    + destruct W as [L Hw]. destruct (Hw r bo En) as (A & B & C).
+      assert (Hr : (r < length (b_heap st))%nat) by (rewrite L; apply nth_error_Some; congruence).
+      destruct (nth_error (b_heap st) r) as [arr|] eqn:Eh; [|apply nth_error_None in Eh; lia].
+      assert (Ea : nth r (b_heap st) [] = arr) by (apply nth_error_nth; exact Eh).
+      rewrite C, Ea. cbn [fst snd]. rewrite Eb. split; [reflexivity | split; assumption].
+    + destruct (nth_error (b_heap st) r) as [arr|] eqn:Eh.
+      * exfalso. destruct W as [L _]. apply nth_error_None in En. assert (r < length (b_heap st))%nat by (apply nth_error_Some; congruence). lia.
+      * cbn [fst snd]. rewrite Eb. auto.
+  - rewrite Eb.
+    assert (Hsame : forall q, match nth_error (b_objs st) q, nth_error (b_heap st) q with
+                              | Some bo, Some arr => b_view st bo = arr
+                              | None, None => True
+                              | _, _ => False end).
+    { intro q. destruct (nth_error (b_objs st) q) as [bo|] eqn:En; destruct (nth_error (b_heap st) q) as [arr|] eqn:Eh; auto.
+      - rewrite (bown_view st q bo W En). apply nth_error_nth. exact Eh.
+      - destruct W as [L _]. apply nth_error_None in Eh. assert (q < length (b_objs st))%nat by (apply nth_error_Some; congruence). lia.
+      - destruct W as [L _]. apply nth_error_None in En. assert (q < length (b_heap st))%nat by (apply nth_error_Some; congruence). lia. }
+    pose proof (Hsame r) as H1. pose proof (Hsame r2) as H2.
+    destruct (nth_error (b_objs st) r) as [bo|]; destruct (nth_error (b_heap st) r) as [arr|]; try contradiction;
+      destruct (nth_error (b_objs st) r2) as [bo2|]; destruct (nth_error (b_heap st) r2) as [arr2|]; try contradiction;
+      try (cbn [fst snd]; rewrite Eb; auto; fail).
+    rewrite H1, H2. pose proof (bown_alloc st (arr ++ arr2) W) as W'. rewrite (babs_bown _ W').
+    split; [|exact W']. unfold b_alloc. cbn [fst snd b_heap b_objs]. destruct W as [L _]. rewrite L. reflexivity.
+Qed.
+
+Theorem brun_own_refines : forall ops st, bown st ->
+  rbrun (babs st) ops = (babs (fst (brun st ops)), snd (brun st ops)) /\ bown (fst (brun st ops)).
+Proof.
+  induction ops as [|o ops IH]; intros st W; simpl; [auto|].
+  destruct (bstep_own_sim st o W) as [E W1]. rewrite E.
   destruct (bstep st o) as [s1 out]. cbn [fst snd] in *.
-  destruct (IH s1 W1 H2) as [E2 W2]. rewrite E2.
+  destruct (IH s1 W1) as [E2 W2]. rewrite E2.
   destruct (brun s1 ops) as [s2 outs]. cbn [fst snd] in *. auto.
 Qed.
 
@@ -1121,141 +1178,3 @@ Proof.
   destruct ((- Z.of_nat (length cps) <=? i) && (i <? Z.of_nat (length cps))); reflexivity.
 Qed.
 
-(* ---------------------------------------------------------------- byte_slices that are never sliced own their arrays *)
-
-(* every object covers the whole of an array of its own *)
-Definition bown (st : bstate) : Prop :=
-  length (b_heap st) = length (b_objs st) /\
-  forall r o, nth_error (b_objs st) r = Some o ->
-    b_arr o = r /\ b_off o = O /\ b_len o = length (nth r (b_heap st) []).
-
-Lemma bown_view : forall st r o, bown st -> nth_error (b_objs st) r = Some o -> b_view st o = nth r (b_heap st) [].
-Proof.
-  intros st r o [L H] En. destruct (H r o En) as (A & B & C). unfold b_view. rewrite A, B, C. simpl. apply firstn_all.
-Qed.
-
-Lemma babs_bown : forall st, bown st -> babs st = b_heap st.
-Proof.
-  intros st W. apply nth_ext with (d := []) (d' := []).
-  - unfold babs. rewrite map_length. destruct W as [L _]. lia.
-  - intros n Hn. unfold babs in *. rewrite map_length in Hn.
-    destruct (nth_error (b_objs st) n) as [o|] eqn:En; [|apply nth_error_None in En; lia].
-    rewrite (nth_indep _ [] (b_view st (BO 0 0 0))) by (rewrite map_length; lia).
-    rewrite map_nth. erewrite nth_error_nth by exact En. apply (bown_view st n o W En).
-Qed.
-
-Lemma bown_alloc : forall st l, bown st -> bown (fst (b_alloc st l)).
-Proof.
-  intros [heap objs] l [L H]. unfold b_alloc, bown. cbn [fst b_heap b_objs] in *. split.
-  - rewrite !app_length. simpl. lia.
-  - intros r o En. destruct (Nat.lt_ge_cases r (length objs)) as [Hr|Hr].
-    + rewrite nth_error_app1 in En by assumption. destruct (H r o En) as (A & B & C).
-      rewrite app_nth1 by lia. auto.
-    + rewrite nth_error_app2 in En by assumption.
-      destruct (r - length objs)%nat as [|k] eqn:Ek; simpl in En; [|destruct k; discriminate].
-      inversion En; subst. cbn [b_arr b_off b_len]. assert (r = length heap) by lia. subst r.
-      rewrite app_nth2 by lia. rewrite Nat.sub_diag. simpl. auto.
-Qed.
-
-Lemma nth_set_nth_obj : forall (A : Type) (s : list A) r x d, (r < length s)%nat -> nth r (set_nth_obj s r x) d = x.
-Proof. induction s as [|y s IH]; intros [|r] x d H; simpl in *; try lia; auto. apply IH. lia. Qed.
-
-Lemma nth_set_nth_obj_other : forall (A : Type) (s : list A) r r' x d, r <> r' -> nth r' (set_nth_obj s r x) d = nth r' s d.
-Proof. induction s as [|y s IH]; intros [|r] [|r'] x d H; simpl; auto; try congruence. Qed.
-
-Lemma set_nth_obj_length : forall (A : Type) (s : list A) r x, length (set_nth_obj s r x) = length s.
-Proof. induction s as [|y s IH]; intros [|r] x; simpl; auto. Qed.
-
-Lemma zwrite_length : forall arr i x, (i < length arr)%nat -> length (zwrite arr i x) = length arr.
-Proof. intros. unfold zwrite. rewrite app_length, firstn_length. cbn [length]. rewrite skipn_length. lia. Qed.
-
-Lemma bstep_own_sim : forall st o, bown st -> is_bslice o = false ->
-  rbstep (babs st) o = (babs (fst (bstep st o)), snd (bstep st o)) /\ bown (fst (bstep st o)).
-Proof.
-  intros st o W H. pose proof (babs_bown st W) as Eb. destruct o; try discriminate; unfold rbstep, bstep.
-  - pose proof (bown_alloc st l W) as W'. rewrite (babs_bown _ W'). rewrite Eb.
-    split; [|exact W']. unfold b_alloc. cbn [fst snd b_heap b_objs]. destruct W as [L _]. rewrite L. reflexivity.
-  - rewrite Eb. destruct (nth_error (b_objs st) r) as [bo|] eqn:En.
-    + destruct W as [L Hw]. destruct (Hw r bo En) as (A & B & C).
-      assert (Hr : (r < length (b_heap st))%nat) by (rewrite L; apply nth_error_Some; congruence).
-      destruct (nth_error (b_heap st) r) as [arr|] eqn:Eh; [|apply nth_error_None in Eh; lia].
-      assert (Ea : nth r (b_heap st) [] = arr) by (apply nth_error_nth; exact Eh).
-      rewrite C, Ea. assert (Ev : b_view st bo = arr) by (rewrite <- Ea; apply (bown_view st r bo (conj L Hw) En)).
-      destruct k; try (cbn [fst snd]; rewrite Eb; split; [reflexivity | split; assumption]).
-      destruct (resolve_index z (Z.of_nat (length arr))); cbn [fst snd]; rewrite Eb, ?Ev;
-        (split; [reflexivity | split; assumption]).
-    + destruct (nth_error (b_heap st) r) as [arr|] eqn:Eh.
-      * exfalso. destruct W as [L _]. apply nth_error_None in En. assert (r < length (b_heap st))%nat by (apply nth_error_Some; congruence). lia.
-      * cbn [fst snd]. rewrite Eb. auto.
-  - rewrite Eb. destruct (nth_error (b_objs st) r) as [bo|] eqn:En.
-    + destruct W as [L Hw]. destruct (Hw r bo En) as (A & B & C).
-      assert (Hr : (r < length (b_heap st))%nat) by (rewrite L; apply nth_error_Some; congruence).
-      destruct (nth_error (b_heap st) r) as [arr|] eqn:Eh; [|apply nth_error_None in Eh; lia].
-      assert (Ea : nth r (b_heap st) [] = arr) by (apply nth_error_nth; exact Eh).
-      rewrite C, Ea. rewrite A, B. simpl Nat.add. rewrite Ea.
-      destruct k; try (cbn [fst snd]; rewrite Eb; split; [reflexivity | split; assumption]).
-      destruct (resolve_index z (Z.of_nat (length arr))) as [i|] eqn:Ri;
-        [|cbn [fst snd]; rewrite Eb; split; [reflexivity | split; assumption]].
-      destruct (as_string v) as [[|x [|y t]]|];
-        try (cbn [fst snd]; rewrite Eb; split; [reflexivity | split; assumption]).
-      cbn [fst snd].
-      assert (Hi : (Z.to_nat i < length arr)%nat) by (apply resolve_index_some in Ri; lia).
-      assert (W' : bown (BS (set_nth_obj (b_heap st) r (zwrite arr (Z.to_nat i) x)) (b_objs st))).
-      { split; cbn [b_heap b_objs].
-        - rewrite set_nth_obj_length. exact L.
-        - intros r' o' En'. destruct (Hw r' o' En') as (A' & B' & C'). repeat split; auto.
-          destruct (Nat.eq_dec r r') as [->|Ne].
-          + rewrite nth_set_nth_obj by (rewrite L; apply nth_error_Some; congruence).
-            rewrite zwrite_length by assumption. rewrite C'. rewrite Ea. reflexivity.
-          + rewrite nth_set_nth_obj_other by assumption. exact C'. }
-      rewrite (babs_bown _ W'). cbn [b_heap]. split; [reflexivity | exact W'].
-    + destruct (nth_error (b_heap st) r) as [arr|] eqn:Eh.
-      * exfalso. destruct W as [L _]. apply nth_error_None in En. assert (r < length (b_heap st))%nat by (apply nth_error_Some; congruence). lia.
-      * cbn [fst snd]. rewrite Eb. auto.
-  - rewrite Eb. destruct (nth_error (b_objs st) r) as [bo|] eqn:En.
-    + destruct W as [L Hw].
-      assert (Hr : (r < length (b_heap st))%nat) by (rewrite L; apply nth_error_Some; congruence).
-      destruct (nth_error (b_heap st) r) as [arr|] eqn:Eh; [|apply nth_error_None in Eh; lia].
-      assert (Ea : nth r (b_heap st) [] = arr) by (apply nth_error_nth; exact Eh).
-      assert (Ev : b_view st bo = arr) by (rewrite <- Ea; apply (bown_view st r bo (conj L Hw) En)).
-      rewrite Ev. pose proof (bown_alloc st arr (conj L Hw)) as W'. rewrite (babs_bown _ W').
-      split; [|exact W']. unfold b_alloc. cbn [fst snd b_heap b_objs]. rewrite L. reflexivity.
-    + destruct (nth_error (b_heap st) r) as [arr|] eqn:Eh.
-      * exfalso. destruct W as [L _]. apply nth_error_None in En. assert (r < length (b_heap st))%nat by (apply nth_error_Some; congruence). lia.
-      * cbn [fst snd]. rewrite Eb. auto.
-  - rewrite Eb. destruct (nth_error (b_objs st) r) as [bo|] eqn:En.
-    + destruct W as [L Hw]. destruct (Hw r bo En) as (A & B & C).
-      assert (Hr : (r < length (b_heap st))%nat) by (rewrite L; apply nth_error_Some; congruence).
-      destruct (nth_error (b_heap st) r) as [arr|] eqn:Eh; [|apply nth_error_None in Eh; lia].
-      assert (Ea : nth r (b_heap st) [] = arr) by (apply nth_error_nth; exact Eh).
-      rewrite C, Ea. cbn [fst snd]. rewrite Eb. split; [reflexivity | split; assumption].
-    + destruct (nth_error (b_heap st) r) as [arr|] eqn:Eh.
-      * exfalso. destruct W as [L _]. apply nth_error_None in En. assert (r < length (b_heap st))%nat by (apply nth_error_Some; congruence). lia.
-      * cbn [fst snd]. rewrite Eb. auto.
-  - rewrite Eb.
-    assert (Hsame : forall q, match nth_error (b_objs st) q, nth_error (b_heap st) q with
-                              | Some bo, Some arr => b_view st bo = arr
-                              | None, None => True
-                              | _, _ => False end).
-    { intro q. destruct (nth_error (b_objs st) q) as [bo|] eqn:En; destruct (nth_error (b_heap st) q) as [arr|] eqn:Eh; auto.
-      - rewrite (bown_view st q bo W En). apply nth_error_nth. exact Eh.
-      - destruct W as [L _]. apply nth_error_None in Eh. assert (q < length (b_objs st))%nat by (apply nth_error_Some; congruence). lia.
-      - destruct W as [L _]. apply nth_error_None in En. assert (q < length (b_heap st))%nat by (apply nth_error_Some; congruence). lia. }
-    pose proof (Hsame r) as H1. pose proof (Hsame r2) as H2.
-    destruct (nth_error (b_objs st) r) as [bo|]; destruct (nth_error (b_heap st) r) as [arr|]; try contradiction;
-      destruct (nth_error (b_objs st) r2) as [bo2|]; destruct (nth_error (b_heap st) r2) as [arr2|]; try contradiction;
-      try (cbn [fst snd]; rewrite Eb; auto; fail).
-    rewrite H1, H2. pose proof (bown_alloc st (arr ++ arr2) W) as W'. rewrite (babs_bown _ W').
-    split; [|exact W']. unfold b_alloc. cbn [fst snd b_heap b_objs]. destruct W as [L _]. rewrite L. reflexivity.
-Qed.
-
-Theorem brun_own_refines : forall ops st, bown st -> forallb (fun o => negb (is_bslice o)) ops = true ->
-  rbrun (babs st) ops = (babs (fst (brun st ops)), snd (brun st ops)) /\ bown (fst (brun st ops)).
-Proof.
-  induction ops as [|o ops IH]; intros st W H; simpl; [auto|].
-  simpl in H. apply andb_true_iff in H. destruct H as [H1 H2]. apply negb_true_iff in H1.
-  destruct (bstep_own_sim st o W H1) as [E W1]. rewrite E.
-  destruct (bstep st o) as [s1 out]. cbn [fst snd] in *.
-  destruct (IH s1 W1 H2) as [E2 W2]. rewrite E2.
-  destruct (brun s1 ops) as [s2 outs]. cbn [fst snd] in *. auto.
-Qed.
